@@ -12,11 +12,20 @@ FAMILY = {"hrr": "hrr13s", "nohrr": "nohrr13s"}
 
 
 def generate(chk, variant, tier=None):
-    gen = vlib.tlc_generate(MODULE, "Handshake13.%s.gen.%s.cfg" % (variant, tier or chk.tier), timeout=1800)
-    chk.add_tlc("gen13." + variant, gen)
-    if len(gen.printed) < 1000:
+    # two bound shapes: (drops, duplicates, timeouts) = wide in faults / deep in timeouts (a lost datagram, its retransmission
+    # by the timer, and a further timer event afterwards)
+    out, seen = [], set()
+    for shape in ("gen", "genb"):
+        gen = vlib.tlc_generate(MODULE, "Handshake13.%s.%s.%s.cfg" % (variant, shape, tier or chk.tier), timeout=1800)
+        chk.add_tlc("%s13.%s" % (shape, variant), gen)
+        for g in gen.printed:
+            k = json.dumps([(x["act"], x["arg"]) for x in g["steps"]])
+            if k not in seen:
+                seen.add(k)
+                out.append(g)
+    if len(out) < 1000:
         raise vlib.Inconclusive("too few DTLS 1.3 scripts for %s" % variant)
-    return gen.printed
+    return out
 
 
 def replay(chk, binary, variant, scripts, extra_scen=None, tag=""):
